@@ -165,16 +165,16 @@ func main() {
 }
 
 type replayFile struct {
-	Property      string           `json:"property"`
-	Clause        string           `json:"clause"`
-	Message       string           `json:"message"`
-	Deterministic bool             `json:"deterministic"`
-	Seed          uint64           `json:"seed"`
-	Run           uint64           `json:"run"`
-	Case          *props.Case      `json:"case"`
-	Original      *props.Case      `json:"original_case,omitempty"`
-	ReplayCmd     string           `json:"replay_cmd"`
-	Known         string           `json:"known_finding,omitempty"`
+	Property      string      `json:"property"`
+	Clause        string      `json:"clause"`
+	Message       string      `json:"message"`
+	Deterministic bool        `json:"deterministic"`
+	Seed          uint64      `json:"seed"`
+	Run           uint64      `json:"run"`
+	Case          *props.Case `json:"case"`
+	Original      *props.Case `json:"original_case,omitempty"`
+	ReplayCmd     string      `json:"replay_cmd"`
+	Known         string      `json:"known_finding,omitempty"`
 }
 
 func replay(path string) int {
@@ -625,22 +625,24 @@ func report(spec *props.Spec, v *props.Violation, dir string, seed uint64, known
 
 func writeEvidence(spec *props.Spec, dir, tier string, seed uint64, cov *props.Cov, runs int, wall float64, nviol int, knownHit map[string]string, extra map[string]any) {
 	coverage := map[string]any{
-		"evaluations":         cov.Evaluations,
-		"distinct_nontrivial": len(cov.Distinct),
-		"rule":                spec.Rule,
-		"samples":             cov.Samples,
-		"simulated_runs":      runs,
-		"distinct_inputs":     len(cov.Inputs),
-		"logical_steps":       cov.Steps,
-		"simulated_time":      "none: the code under test has no timers; logical steps (intercepted Read/Write events) are the unit",
-		"runs_per_hour":       int(float64(runs) / wall * 3600),
-		"evaluations_per_hour": int(float64(cov.Evaluations) / wall * 3600),
-		"faults_fired":        cov.Faults,
-		"probes":              cov.Probes,
-		"reader_states":       len(cov.States),
-		"real_components":     spec.Real,
-		"stubbed_components":  spec.Stubs,
-		"exhaustive":          false,
+		"evaluations":           cov.Evaluations,
+		"distinct_nontrivial":   len(cov.Distinct),
+		"rule":                  spec.Rule,
+		"samples":               cov.Samples,
+		"simulated_runs":        runs,
+		"distinct_inputs":       len(cov.Inputs),
+		"logical_steps":         cov.Steps,
+		"simulated_time":        "none: the code under test has no timers; logical steps (intercepted Read/Write events) are the unit",
+		"runs_per_hour":         int(float64(runs) / wall * 3600),
+		"evaluations_per_hour":  int(float64(cov.Evaluations) / wall * 3600),
+		"faults_fired":          cov.Faults,
+		"probes":                cov.Probes,
+		"reader_states":         len(cov.States),
+		"reader_states_measure": "distinct (offered len(p) bucket, position of the stream cursor, kind of return) triples observed at Read calls",
+		"reader_states_reached": cov.States,
+		"real_components":       spec.Real,
+		"stubbed_components":    spec.Stubs,
+		"exhaustive":            false,
 	}
 	if len(cov.Samples) == 0 {
 		coverage["samples"] = []any{"(no sample recorded)"}
